@@ -668,7 +668,27 @@ func vC01GenWild(r *rand.Rand, tr *vC01Trace) {
 		}
 		exp := vC01A(owner, 300, byte(40+i))
 		s.Hdr.Name = owner
-		ans = append(ans, exp, s)
+		// an RRset may carry several signatures (key or algorithm rollover, replayed or junk ones), in any order
+		// and with differing Labels fields; each one is looked at
+		switch r.Intn(6) {
+		case 0: // a full-label-count signature with garbage octets ahead of the real one
+			d := dns.Copy(s).(*dns.RRSIG)
+			d.Labels = uint8(dns.CountLabel(owner))
+			d.Signature = vC01FlipSig(r, d.Signature)
+			ans = append(ans, exp, d, s)
+			kinds = append(kinds, "decoy-first")
+		case 1: // ... or behind it
+			d := dns.Copy(s).(*dns.RRSIG)
+			d.Labels = uint8(dns.CountLabel(owner))
+			d.Signature = vC01FlipSig(r, d.Signature)
+			ans = append(ans, exp, s, d)
+			kinds = append(kinds, "decoy-last")
+		case 2: // the same signature twice
+			ans = append(ans, exp, s, dns.Copy(s))
+			kinds = append(kinds, "sig-twice")
+		default:
+			ans = append(ans, exp, s)
+		}
 		// denial material
 		switch r.Intn(6) {
 		case 0, 1: // NSEC covering the next closer name
